@@ -6,6 +6,7 @@ CONSTANTS
   KeyLock = TRUE
   ExpiryRecheck = FALSE
   EntryApi = TRUE
+  FlushLock = TRUE
 SPECIFICATION Spec
 INVARIANT Linearizable
 PROPERTY Termination
